@@ -878,6 +878,14 @@ class Normalizer:
             if _is_simple_arg(arg) and p not in stored:
                 subst[p] = arg
                 continue
+            # a literal sequence of simple values that the helper only iterates (`for x in param:`) is substituted as it
+            # is; the loop over the literal is unrolled afterwards
+            if isinstance(arg, (ast.Tuple, ast.List)) and all(_is_simple_arg(e) for e in arg.elts) and p not in stored:
+                uses = [n for n in ast.walk(holder) if isinstance(n, ast.Name) and n.id == p]
+                iters = [n for l_ in ast.walk(holder) if isinstance(l_, ast.For) and isinstance(l_.iter, ast.Name) and l_.iter.id == p for n in [l_.iter]]
+                if uses and len(uses) == len(iters):
+                    subst[p] = arg
+                    continue
             new = self._fresh(p, ctx_names) if p in ctx_names else p
             ctx_names.add(new)
             if new != p:
@@ -1245,7 +1253,7 @@ class Normalizer:
                 self.stats['idioms'] += 1
                 return [asg, s]
         # for x in (a, b, c): body   ->   body[x:=a] ; body[x:=b] ; body[x:=c]     (short literal sequences only)
-        if isinstance(s, ast.For) and not s.orelse and isinstance(s.target, ast.Name) and isinstance(s.iter, (ast.Tuple, ast.List)) and 1 <= len(s.iter.elts) <= 6 and not any(isinstance(e, ast.Starred) for e in s.iter.elts):
+        if isinstance(s, ast.For) and not s.orelse and isinstance(s.target, ast.Name) and isinstance(s.iter, (ast.Tuple, ast.List)) and 0 <= len(s.iter.elts) <= 6 and not any(isinstance(e, ast.Starred) for e in s.iter.elts):
             body_nodes = [n for b in s.body for n in [b] + list(_local_walk(b))]
             assigned = any(isinstance(n, ast.Name) and n.id == s.target.id and isinstance(n.ctx, (ast.Store, ast.Del)) for n in body_nodes)
             jumps = any(isinstance(n, (ast.Break, ast.Continue)) for n in body_nodes)
@@ -1258,7 +1266,7 @@ class Normalizer:
                 for o in out:
                     ast.fix_missing_locations(o)
                 self.stats['idioms'] += 1
-                return out
+                return out or [ast.copy_location(ast.Pass(), s)]
         # while (x := e) ...: body   ->   while True: x = e ; if not (x ...): break ; body
         if isinstance(s, ast.While) and not s.orelse:
             t = s.test
